@@ -7,7 +7,49 @@ witness. All hint outputs (mask, commitment values) are free in both copies; one
 GF(47), z3 SAT core."""
 import json, sys, argparse, time, os
 from fd import FD
-from cs2smt import System, P, denull, solve
+from cs2smt import System, P, denull, solve, program_spec, wire_maps, Unsupported
+
+
+def qcp_sound(out, base, prog, variant, timeout):
+    """QCP-SOUND (C02, PLONK): the rows listed in a commitment's Committed list get a prover-chosen
+    BSB22 term (qcp_i = 1 there), the commitment row gets the injected value. With those free terms
+    the compiled gates must still force the functional meaning of the program's ordinary operations:
+    'gates hold (with the free terms) and some output differs from its meaning' must be unsat."""
+    if "error" in variant:
+        out.write(json.dumps(dict(base, query="qcp-sound", result="error", expect="unsat", note=variant["error"][:300])) + "\n")
+        return
+    S = System(variant["sys"])
+    cms = variant["sys"].get("commitments") or []
+    F = FD(P)
+    val = S.free_wires(F)
+    nfree = 0
+    for g in S.js["insts"]:
+        if g["kind"] == "hint":
+            continue
+        if g["kind"] != "sparse":
+            raise Unsupported("instruction kind " + g["kind"])
+        e = S.sparse_expr(F, g, val)
+        row = g.get("cOffset", 0)
+        for cm in cms:
+            if row in (cm.get("Committed") or []) or row == cm.get("CommitmentIndex"):
+                e = F.add(e, F.fresh())
+                nfree += 1
+        F.require_eq(e, 0)
+    inw, outw = wire_maps(S, prog)
+    d = dict(base, query="qcp-sound", expect="unsat", free_terms=nfree, rows=sum(1 for g in S.js["insts"] if g["kind"] == "sparse"),
+             committed=[cm.get("Committed") for cm in cms])
+    try:
+        sp = program_spec(F, prog, [val[w] for w in inw])
+        rel = sp["sound"]([val[w] for w in outw])
+    except Unsupported as ex:
+        out.write(json.dumps(dict(d, result="skipped", note=str(ex))) + "\n")
+        return
+    F.require(-rel)
+    r, m, dt, _ = solve(F, timeout)
+    d.update(result=r, time=round(dt, 4), vars=F.nv, clauses=len(F.cl))
+    if r == "sat":
+        d["cex"] = dict(inputs=[F.value(m, val[w]) for w in inw], outputs=[F.value(m, val[w]) for w in outw])
+    out.write(json.dumps(d) + "\n")
 
 
 def main():
@@ -22,7 +64,8 @@ def main():
         prog = rec["prog"]
         for variant in rec["variants"]:
             base = dict(prog=prog["name"], builder=variant["builder"], threshold=variant["threshold"])
-            if variant["builder"] != "r1cs":
+            if variant["builder"] == "scs":
+                qcp_sound(out, base, prog, variant, a.timeout)
                 continue
             if "error" in variant:
                 out.write(json.dumps(dict(base, query="masked", result="error", expect="sat", note=variant["error"][:300])) + "\n")
